@@ -131,6 +131,26 @@ def old_draw(m, meta, trials=300):
     common.time.sleep = lambda s: None
     rng = random.Random(6)
     problems = []
+    # a draw that does not fit is rejected before anything - the hide-cursor sequence included - is written
+    from term_image.exceptions import InvalidSizeError
+    for nfr in (1, 3):
+        for kw in (dict(), dict(scroll=True), dict(animate=False)):
+            image = BlockImage(_gif(nfr))
+            image.set_size(height=200)
+            buf = _Tty()
+            old = sys.stdout
+            sys.stdout = buf
+            try:
+                try:
+                    image.draw(**kw)
+                    rejected = False
+                except InvalidSizeError:
+                    rejected = True
+            finally:
+                sys.stdout = old
+            must_reject = not ("scroll" in kw or "animate" in kw) or nfr > 1 and "animate" not in kw
+            if must_reject and (not rejected or buf.getvalue()):
+                problems.append({"frames": nfr, "draw": kw, "image height": 200, "rejected": rejected, "written before the rejection": buf.getvalue()[:40]})
     for t in range(trials):
         nfr = rng.choice([1, 2, 3])
         image = BlockImage(_gif(nfr))
